@@ -6,9 +6,10 @@ package main
 //   [3; role; feature] does an incoming CALL of that feature reach a handler method of the role?
 
 import (
-	"runtime"
+	"fmt"
 	"math/rand"
 	"reflect"
+	"runtime"
 	"sort"
 	"strings"
 	"sync"
@@ -125,6 +126,44 @@ func c18Eval(in []int64) []int64 {
 	return []int64{-1}
 }
 
+var dfltOnce sync.Once
+var dfltCP16 ocpp16.ChargePoint
+var dfltCS16 ocpp16.CentralSystem
+var dfltCS201 ocpp2.ChargingStation
+var dfltCSMS201 ocpp2.CSMS
+
+// defaultSend: 1 if the default-constructed endpoint of that role accepts to send the feature (whatever happens next: it is
+// not started), 0 if it does not know the action or its profile.
+func defaultSend(role int64, name string) int64 {
+	dfltOnce.Do(func() {
+		dfltCP16 = ocpp16.NewChargePoint("cp", nil, nil)
+		dfltCS16 = ocpp16.NewCentralSystem(nil, nil)
+		dfltCS201 = ocpp2.NewChargingStation("cs", nil, nil)
+		dfltCSMS201 = ocpp2.NewCSMS(nil, nil)
+	})
+	f := featureOf(role, name)
+	if f == nil {
+		return 0
+	}
+	req := reflect.New(f.GetRequestType()).Interface().(ocpp.Request)
+	var err error
+	cb := func(ocpp.Response, error) {}
+	switch role {
+	case 0:
+		err = dfltCP16.SendRequestAsync(req, cb)
+	case 1:
+		err = dfltCS16.SendRequestAsync("c1", req, cb)
+	case 2:
+		err = dfltCS201.SendRequestAsync(req, cb)
+	default:
+		err = dfltCSMS201.SendRequestAsync("c1", req, cb)
+	}
+	if err != nil && (strings.Contains(err.Error(), "unsupported action") || strings.Contains(err.Error(), "missing profile")) {
+		return 0
+	}
+	return 1
+}
+
 func c18Gen(cfg config, emit func(Case)) {
 	_ = rand.Int
 	// every registered enum tag: every value accepted by any enum of the library plus non-members
@@ -168,7 +207,19 @@ func c18Gen(cfg config, emit func(Case)) {
 		}
 		sort.Strings(names)
 		for _, n := range names {
-			emit(Case{Class: "send-probe", Input: append([]int64{2, role}, cw.LP([]byte(n))...), Comment: n})
+			in := append([]int64{2, role}, cw.LP([]byte(n))...)
+			emit(Case{Class: "send-probe", Input: in, Comment: n})
+			// the endpoint built with the library's defaults (nil arguments) must know the same profiles as one
+			// built with the explicit list of all profiles
+			expl, dflt := c18Eval(in), defaultSend(role, n)
+			name := n
+			emit(Case{Class: "send-probe-default", Input: in, Comment: n + " (default-constructed endpoint)",
+				Check: func([]int64) (string, string) {
+					if len(expl) == 1 && expl[0] != dflt {
+						return "C18-default-endpoint-differs", fmt.Sprintf("role %d, feature %s: endpoint with all profiles -> %d, default-constructed endpoint -> %d", role, name, expl[0], dflt)
+					}
+					return "", ""
+				}})
 		}
 	}
 }
